@@ -223,11 +223,25 @@ func (m c06) checkReduce(c *fw.Ctx, members []gts.Location, order bool) {
 	// expected: concatenation of the members' parts, as list members.
 	var exp []model.Part
 	allComp := true
-	for _, x := range members {
+	for mi, x := range members {
 		if _, ok := x.(gts.Complemented); !ok {
 			allComp = false
 		}
+		_, isJoin := x.(gts.Joined)
+		if cx, ok := x.(gts.Complemented); ok {
+			// consecutive complemented members are merged into one complemented
+			// join, which flattens a complemented join member as well.
+			_, isJoin = cx.Location.(gts.Joined)
+		}
 		for _, p := range model.Parts(x) {
+			switch {
+			case !p.InList, isJoin && !order && p.Group == 1:
+				// a leaf member, or a member of a join that Join flattens into
+				// the new list: part of the new top-level group.
+				p.Group = 0
+			default:
+				p.Group += 100 * (mi + 1) // keep nested lists of different members apart
+			}
 			p.InList = true
 			p.Ord = order || p.Ord
 			exp = append(exp, p)
